@@ -18,7 +18,7 @@ RULE = ("for each of the 37 built-in crops the model is initialised on the bundl
         "-20..120 % TAW x ET0 0.1..20 x early senescence on/off x beta on/off; temperature_stress over "
         "-30..60 C; growing_degree_day methods 1-3 over a (Tmin,Tmax) grid; cc_development growth / "
         "decline curves over time for several (CCx, CGC, CDC) scalings and cc_required_time as inverse; "
-        "fCO2 from initialisations at constant 250..2500 ppm and the reference; plus range contracts "
+        "fCO2 from initialisations at constant 250..2500 ppm and the reference (default and user-supplied 330 / 420 ppm); plus range contracts "
         "riding along in random full simulations; non-trivial = a crop lattice / CO2 sweep / ride-along "
         "run that evaluated >= 100 contract instances; distinct = (kind, crop or spec digest)")
 ASSUMPTIONS = [
